@@ -212,4 +212,18 @@ CLAIMED["C20"] = {
     "note": TRUST + " The Python parser is read with the standard ast module.",
 }
 
+CLAIMED["C02"] = {
+    "technique": "record-layout facts (both struct layouts) for wire sizes and the anti prefix; finite-domain evaluation of the four identifier helpers through their CFGs over boundary (rank, thread, colour, sequence) values; must-count path rules on MPI send/receive; matcher key extraction; routing-site recognisers",
+    "text": ("The equivalence with the sequential execution under arbitrary MPI delays and reordering is NOT decided: it is a property of network "
+             "schedules. Decided on every run, in both struct layouts, for code the test suite never executes (it runs one rank): control / anti / "
+             "event messages have strictly increasing sizes and the receive paths test exactly those; every lp_msg field the receive side reads is "
+             "inside the transmitted anti prefix, initialised on the anti receive path, or guarded by pl_size = 0; every remote send is stamped "
+             "and counted once for its destination and every receive counted once by the helper of its kind; through the four stamping helpers, "
+             "for boundary ranks/threads (0, 1, MAX-2, MAX-1), both colours and extreme sequence numbers, the colour read is the colour written, "
+             "the event and anti words differ exactly by ANTI, the word exceeds ANTI|PROCESSED (remote recognition), distinct senders get distinct "
+             "words and counters move by one; both matchers compare (sender word, sequence number) and every remote event is checked against "
+             "the early anti-messages before processing; cancelled remote buffers are released at GVT only; routing uses lid_to_nid."),
+    "note": TRUST + " MPI's non-overtaking and progress guarantees are assumed, not checked.",
+}
+
 NOT_APPLICABLE = {}
